@@ -2,7 +2,7 @@
 META = {
     "level": "exploration",
     "technique": "runtime monitoring of real directory trees on an in-process grid: authority oracle on every node reached through read-caps, behavioural write attempts, plaintext secret search and an independent rwcap decryptor",
-    "text": "Builds random directory trees (depth <= 4) on a grid of real storage servers with CHK/LIT/SDMF/MDMF files, SDMF/MDMF/immutable/literal directories and unknown future caps (with and without ro./imm. prefixes, in rw and ro slots), linked through set_node/set_uri/create_subdirectory/initial children with write-caps, read-caps and 'no-write' metadata. The root is opened through its read-cap (fresh client and the building client) and immutable/inner directories through theirs; every transitively reached child must report read-only authority (is_readonly, get_write_uri None, cap string not a write cap, no writekey in any reported string) and real write attempts through such nodes must fail and leave the object unchanged. The plaintext of every mutable directory is downloaded with the read-cap only: no child write-cap or writekey occurs in it (this includes lone unknown-format caps handed over without ro./imm. prefix in the write-cap slot only, through set_uri, set_children, create_subdirectory(initial_children) and create_dirnode(initial_children): refused or accepted, the string must never be visible to readers), a child that the writer's client has on its access.blacklist and that the writer re-packs (metadata update, rename, re-link) stays equally protected, keystreams protecting different write-caps in one directory differ (known-plaintext: one known child write-cap must not reveal a sibling's), and a decryptor re-typed from the specification (tagged SHA-256d pair hash of salt and key, AES-128-CTR) reproduces every child write-cap from the writekey and none from anything derivable from the read-cap. Sampled, not exhaustive.",
+    "text": "Builds random directory trees (depth <= 4) on a grid of real storage servers with CHK/LIT/SDMF/MDMF files, SDMF/MDMF/immutable/literal directories and unknown future caps (with and without ro./imm. prefixes, in rw and ro slots), linked through set_node/set_uri/create_subdirectory/initial children with write-caps, read-caps and 'no-write' metadata. The root is opened through its read-cap (fresh client and the building client) and immutable/inner directories through theirs; every transitively reached child must report read-only authority (is_readonly, get_write_uri None, cap string not a write cap, no writekey in any reported string) and real write attempts through such nodes must fail and leave the object unchanged. The plaintext of every mutable directory is downloaded with the read-cap only: no child write-cap or writekey occurs in it (this includes lone unknown-format caps handed over without ro./imm. prefix in the write-cap slot only, through set_uri, set_children, create_subdirectory(initial_children) and create_dirnode(initial_children): refused or accepted, the string must never be visible to readers), a child that the writer's client has on its access.blacklist and that the writer re-packs (metadata update, rename, re-link) stays equally protected, keystreams protecting different write-caps in one directory differ (known-plaintext: one known child write-cap must not reveal a sibling's), after the writer ran verifying checks / check-and-repair / deep-check on directories and then modified them through the same node objects, a reader fetches every share with slot_readv and locates the enc_privkey field through the offset table: the field must decrypt to the signing key under the writekey and must not be (or decrypt under read-key material to) a signing key whose hash chain ends in the read-cap's readkey; and a decryptor re-typed from the specification (tagged SHA-256d pair hash of salt and key, AES-128-CTR) reproduces every child write-cap from the writekey and none from anything derivable from the read-cap. Sampled, not exhaustive.",
     "note": "Trusts the `cryptography` AES primitive, the hash tags re-typed in _dir.py/_caps.py and the in-process wire; read-key-derived material is a fixed list of 11 derivations (tagged-hash and raw-key use), not all computable functions.",
 }
 LEVEL = "exploration"
@@ -707,3 +707,5 @@ def one_case(ck, g, rng, caseno):
 #                                       -> directory-plaintext-contains-write-cap, readonly-path-yields-writeable-child
 #   seeded/C18-3                        rwcap salt derived from the directory writekey (one keystream per directory)
 #                                       -> child-write-cap-recoverable-from-sibling-write-cap
+#   seeded/C18-7                        verifying Retrieve caches the DECRYPTED signing key as enc_privkey; the next publish stores it in
+#                                       the clear -> signing-key-readable-in-share, enc-privkey-not-decryptable-with-writekey
